@@ -357,6 +357,10 @@ func firstDiffKind(a, b string) string {
 
 // litOfValue renders a Go value as a JS literal whose ExportTo conversion into the value's type is determined by the documentation.
 func litOfValue(v reflect.Value, mapper int, depth int) (string, bool) {
+	if v.Kind() == reflect.Ptr && !v.IsNil() && v.Type() != typBigInt && v.Elem().Type() == typSimpleMap && v.Elem().IsNil() {
+		// a pointer to a nil map[string]interface{} shows as an empty object (only the bare nil map is null)
+		return "{}", true
+	}
 	if depth > 8 {
 		return "", false
 	}
